@@ -386,6 +386,8 @@ func TestC17(t *testing.T) {
 				docs = append(docs, []byte("[Script Info]\nTitle: t\x1az\n\n[Events]\nFormat: Marked, Start, End, Style, Name, MarginL, MarginR, MarginV, Effect, Text\nDialogue: Marked=0,0:00:01.00,0:00:02.00,,,0,0,0,,first \x1a cue\nDialogue: Marked=0,0:00:03.00,0:00:04.00,,,0,0,0,,sec\x00ond\x0c\nDialogue: Marked=0,0:00:05.00,0:00:06.00,,,0,0,0,,third\n\x1a"))
 			}
 			if format == "ttml" {
+				// characters XML does not allow (U+FFFE, U+FFFF, a C0 control) and the last ones it does (U+FFFD, U+E000)
+				docs = append(docs, []byte("<tt xmlns=\"http://www.w3.org/ns/ttml\"><body><div><p begin=\"00:00:01.000\" end=\"00:00:02.000\">a\ufffd\ue000b</p><p begin=\"00:00:03.000\" end=\"00:00:04.000\">c\uffffd\ufffee\x01</p></div></body></tt>"))
 				// an entity XML does not know (rejected, the same way under every delivery)
 				docs = append(docs, []byte(`<tt xmlns="http://www.w3.org/ns/ttml"><body><div><p begin="00:00:01.000" end="00:00:02.000">a&nbsp;b &amp; c&nbsp;</p></div></body></tt>`))
 			}
